@@ -272,6 +272,44 @@ func checkRoundTrip(t *rapid.T, name string, encoded, refBytes []byte, size int,
 	}
 }
 
+// encodeInto runs an encoder on a destination slice in a drawn state - empty or holding 1..12 bytes, with 0..9 bytes
+// of spare capacity - and returns what it appended. The bytes already there must stay (the encoders only append),
+// and no destination state may make an encoder panic.
+func encodeInto(t *rapid.T, cl *caseLog, name string, f func(b *[]byte)) []byte {
+	k := rapid.IntRange(0, 12).Draw(t, "dstlen")
+	spare := rapid.IntRange(0, 9).Draw(t, "dstspare")
+	if rapid.IntRange(0, 3).Draw(t, "dstnil") == 0 {
+		k, spare = 0, 0
+	}
+	dst := make([]byte, k, k+spare)
+	for i := range dst {
+		dst[i] = byte(0xA0 + i)
+	}
+	if k == 0 && spare == 0 {
+		dst = nil
+	}
+	backing := dst[:cap(dst)]
+	func() {
+		defer func() {
+			if r := recover(); r != nil {
+				t.Fatalf("C18 %s: encoding into a destination of length %d and capacity %d panicked: %v", name, k, k+spare, r)
+			}
+		}()
+		f(&dst)
+	}()
+	if len(dst) < k {
+		t.Fatalf("C18 %s: the destination shrank from %d to %d bytes", name, k, len(dst))
+	}
+	for i := 0; i < k; i++ {
+		if dst[i] != byte(0xA0+i) || backing[i] != byte(0xA0+i) {
+			t.Fatalf("C18 %s: byte %d already in the destination (len %d, cap %d) was overwritten", name, i, k, k+spare)
+		}
+	}
+	cl.labelIf(k > 0 && k+spare < 8, "dst:short-nonempty-small-capacity")
+	cl.labelIf(k > 0, "dst:non-empty")
+	return append([]byte(nil), dst[k:]...)
+}
+
 func TestC18_Values(t *testing.T) {
 	rapid.Check(t, func(t *rapid.T) {
 		cl := newCase(c18)
@@ -283,8 +321,7 @@ func TestC18_Values(t *testing.T) {
 			case 0:
 				v := genUint64(t, cl)
 				cl.logf("uvarint64 %d", v)
-				var e []byte
-				enc.EncodeUvarint64(&e, v)
+				e := encodeInto(t, cl, "EncodeUvarint64", func(b *[]byte) { enc.EncodeUvarint64(b, v) })
 				checkRoundTrip(t, "uvarint64", e, refdec.AppendUvarint(nil, v), enc.Uvarint64Size(v), 9, trailing, decoders[0].dec, v)
 				if v < 1<<56 { // below 2^56 the format coincides with encoding/binary's uvarint
 					tmp := binary.AppendUvarint(nil, v)
@@ -298,8 +335,7 @@ func TestC18_Values(t *testing.T) {
 					v = refdec.UnZigZag(uint64(v))
 				}
 				cl.logf("varint64 %d", v)
-				var e []byte
-				enc.EncodeVarint64(&e, v)
+				e := encodeInto(t, cl, "EncodeVarint64", func(b *[]byte) { enc.EncodeVarint64(b, v) })
 				checkRoundTrip(t, "varint64", e, refdec.AppendVarint(nil, v), enc.Varint64Size(v), 9, trailing, decoders[1].dec, v)
 				// 32-bit variant
 				b := append(append([]byte(nil), e...), trailing...)
@@ -314,8 +350,7 @@ func TestC18_Values(t *testing.T) {
 			case 2:
 				v := genFloat(t, cl)
 				cl.logf("varfloat64 %x", math.Float64bits(v))
-				var e []byte
-				enc.EncodeVarfloat64(&e, v)
+				e := encodeInto(t, cl, "EncodeVarfloat64", func(b *[]byte) { enc.EncodeVarfloat64(b, v) })
 				want := refdec.VarfloatTransform(v)
 				checkRoundTrip(t, "varfloat64", e, refdec.AppendVarfloat(nil, v), enc.Varfloat64Size(v), 9, trailing, decoders[3].dec, want)
 				if (v > 0 || math.Float64bits(v) == 0) && v < 1<<53 && v == math.Floor(v) && !obs.FEq(want, v) {
@@ -327,8 +362,7 @@ func TestC18_Values(t *testing.T) {
 			default:
 				v := genFloat(t, cl)
 				cl.logf("float64LE %x", math.Float64bits(v))
-				var e []byte
-				enc.EncodeFloat64LE(&e, v)
+				e := encodeInto(t, cl, "EncodeFloat64LE", func(b *[]byte) { enc.EncodeFloat64LE(b, v) })
 				if len(e) != 8 {
 					t.Fatalf("C18 float64LE: %d bytes", len(e))
 				}
